@@ -11,7 +11,7 @@ from .engine import BUILTIN_EXC, LOGGER_RE, Ctx, Engine, _const_int
 from .ops import Unsupported, coerce, contains, truthy, values_equal
 from .source import loop_nodes
 from .stmts import MUTATORS
-from .types import BOOL, INT, REAL, STR, Atom, Enum, MapT, ObjT, Opt, OpaqueT, Record, SeqT, SetT, Ty
+from .types import BOOL, DATETIME, INT, REAL, STR, Atom, Enum, MapT, ObjT, Opt, OpaqueT, Record, SeqT, SetT, Ty
 from .values import (BRK, CONT, NONE, OK, RAISE, RET, BoundMeth, BuiltinVal, ExcVal, FuncVal, GenVal, LambdaVal, ListVal,
                      ModVal, Native, NoneVal, ObjRef, State, TupleVal, Val, bind, boolval, fresh_name, mk_fresh)
 
@@ -299,6 +299,8 @@ def contract_args(self, contract: Contract, key, recv, args, kwargs, st):
         node = self.src.function(contract.key).node
         order = [x.arg for x in node.args.posonlyargs + node.args.args if x.arg not in ("self", "cls")]
         order += [x.arg for x in node.args.kwonlyargs]
+    if recv is None and "self" in contract.params and "self" not in order:
+        order = ["self"] + order
     bound = {}
     for n, v in zip(order, args):
         bound[n] = v
@@ -315,6 +317,8 @@ def contract_args(self, contract: Contract, key, recv, args, kwargs, st):
         if isinstance(ty, ObjT):
             out[n] = v
         else:
+            if isinstance(v, Val) and isinstance(v.ty, Opt) and not isinstance(ty, Opt):
+                v = self.unwrap_opt(st, v, f"argument {n} of {_short(contract.key)}")
             out[n] = coerce(v, ty)
     for n in bound:
         if n not in out:
@@ -611,9 +615,9 @@ def builtin_call(self, st, name, args, kwargs, node=None):
                 return h(self, st, v, kwargs)
         raise Unsupported("sorted")
     if name == "datetime.datetime.now" or name == "datetime.now":
-        return [(OK, st, self.now(st))]
+        return [(OK, st, Val(self.now(st).term, DATETIME))]
     if name in ("datetime.datetime.fromtimestamp", "datetime.fromtimestamp"):
-        return [(OK, st, coerce(a[0], REAL))]
+        return [(OK, st, Val(coerce(a[0], REAL).term, DATETIME))]
     if name == "hash":
         return [(OK, st, Val(z3.Int(fresh_name("hash")), INT))]
     if name == "repr":
@@ -835,9 +839,9 @@ def value_method(self, st, recv, name, args, kwargs, lv):
             return [(OK, st, Val(recv.term, ty))]
         raise Unsupported(f"list.{name}")
 
-    if ty == REAL:
+    if ty in (REAL, DATETIME):
         if name in ("timestamp", "total_seconds"):
-            return [(OK, st, recv)]
+            return [(OK, st, Val(recv.term, REAL))]
         if name == "isoformat":
             f = getattr(self.reg, "isoformat_fn", None)
             if f is not None:
